@@ -38,75 +38,61 @@ Theorem C05_recover : forall W d m, 0 < W -> consistent W d = true -> cont d = t
 Proof. exact recover_next_store. Qed.
 Print Assumptions C05_recover.
 
-(* The persisted running-filter snapshot is CONSUMED (code after the repair of the stale-snapshot
-   findings): after every restart — graceful or not — followed by the first use of the filter, on a chain
+(* The persisted running-filter snapshot is CONSUMED (code after /repo 1231538): after every restart — graceful or not — followed by the first use of the filter, on a chain
    with a height, no snapshot is left on disk. A later ungraceful restart therefore rebuilds from headers. *)
 Theorem C05_snapshot_consumed : forall W d m g h, 0 < W -> consistent W d = true -> mem_sync W d m = true ->
   d_height d = Some h -> d_snap (fst (step W (d, m) (Restart g))) = None.
 Proof. exact restart_consumes. Qed.
 Print Assumptions C05_snapshot_consumed.
 
-(* The event index describes the same chain after a crash. Hypothesis about snapshots: only the purely
-   SYNTACTIC snapshot discipline of juno's node (snap_discipline: WriteRunningEventFilter is called at
-   shutdown, i.e. no block is reverted between a Snapshot operation and the next Restart; a snapshot already
-   on the start disk counts as pending). The former semantic hypothesis ops_fresh ("no Revert removes a
-   block that a persisted snapshot covers") is no longer assumed: it is PROVED from the discipline, because
-   every restart consumes the snapshot (C05_snapshot_consumed, C05_discipline_fresh). Then the filter a
+(* A committed RevertHead deletes the persisted running-filter snapshot inside its own batch (repair
+   findings/C05-snapshot-invalidated-by-revert.patch): whenever the revert commits anything, no snapshot is
+   left on disk, atomically with the disappearance of the block the snapshot covered. *)
+Theorem C05_revert_invalidates_snapshot : forall W d m, 0 < W -> mem_sync W d m = true ->
+  fst (plan W Revert d m) <> [] -> d_snap (fst (step W (d, m) Revert)) = None.
+Proof. exact revert_invalidates. Qed.
+Print Assumptions C05_revert_invalidates_snapshot.
+
+(* The event index describes the same chain after a crash: NO HYPOTHESIS ABOUT SNAPSHOTS IS LEFT. The former
+   hypotheses (semantic ops_fresh: "no Revert removes a block that a persisted snapshot covers"; then the
+   syntactic snap_discipline: "no Revert between a Snapshot operation and the next Restart") are gone: a
+   snapshot written at ANY moment of a process's life (Blockchain.WriteRunningEventFilter is exported) is
+   deleted by the batch of every later revert (C05_revert_invalidates_snapshot) and consumed by the first use
+   after every restart (C05_snapshot_consumed). For every history of stores, reverts, prunes, L1 heads,
+   snapshots and restarts that respects the environment (ops_env) and every crash point k, the filter a
    fresh process consults for every retained block — running window or persisted window, after the writes
    of its own initialisation (snapshot delete, window re-writes) — has every bit of that block's bloom: no
    event false negatives (index_covers). IdxD / MemCover (Proofs_G.v) are the content invariants of the
-   persisted windows, the snapshot and the in-memory filter; the empty database satisfies them. The
-   discipline is not decorative: C05_crash_index_midlife_snapshot_refuted. *)
+   persisted windows, the snapshot and the in-memory filter; the empty database satisfies them.
+   What is left, precisely: the START hypotheses, of which mem_sync (the in-memory filter is in step with
+   the head) is the one a FAILED store breaks (the closure mutates the filter before the commit); a mid-life
+   snapshot then persists the uncommitted column — the other registered finding
+   failed-store:uncommitted-filter-state-persisted-by-snapshot, untouched by this repair. mem_sync is not
+   decorative: C05_index_sync_needed. Crash-free runs keep it (C05_sync_preserved, C05_recover).
+   The code before the revert repair violates the statement: C05_stale_snapshot_before_fix_refuted. *)
 Theorem C05_index : forall W ops k st, 0 < W ->
   consistent W (fst st) = true -> cont (fst st) = true -> mem_sync W (fst st) (snd st) = true ->
   IdxD W (fst st) -> MemCover (fst st) (snd st) ->
-  ops_env W ops st = true -> snap_discipline ops (snap_pending (fst st)) = true ->
+  ops_env W ops st = true ->
   index_covers W (fst (exec_crash W ops k st)) = true.
 Proof.
-  intros W ops k st HW Hc Hk Hs Hi Hm He Hd.
-  exact (crash_index_covers_discipline W ops k st HW (conj (conj Hc (conj Hk Hs)) (conj Hi Hm)) He Hd).
+  intros W ops k st HW Hc Hk Hs Hi Hm He.
+  exact (crash_index_covers W ops k st HW (conj (conj Hc (conj Hk Hs)) (conj Hi Hm)) He).
 Qed.
 Print Assumptions C05_index.
 
-(* the discipline implies the semantic freshness hypothesis along every environment-respecting run *)
-Theorem C05_discipline_fresh : forall W ops st, 0 < W ->
-  consistent W (fst st) = true -> cont (fst st) = true -> mem_sync W (fst st) (snd st) = true ->
-  IdxD W (fst st) ->
-  ops_env W ops st = true -> snap_discipline ops (snap_pending (fst st)) = true ->
-  ops_fresh W ops st = true.
-Proof.
-  intros W ops st HW Hc Hk Hs Hi He Hd.
-  exact (discipline_fresh W ops st _ HW (conj Hc (conj Hk Hs)) (snap_inv_start W _ Hi) He Hd).
-Qed.
-Print Assumptions C05_discipline_fresh.
-
-(* the more general, semantic form (it also allows snapshots taken in the middle of a process's life as
-   long as no later Revert removes a block the snapshot covers) *)
-Theorem C05_index_fresh : forall W ops k st, 0 < W ->
-  consistent W (fst st) = true -> cont (fst st) = true -> mem_sync W (fst st) (snd st) = true ->
-  IdxD W (fst st) -> MemCover (fst st) (snd st) ->
-  ops_env W ops st = true -> ops_fresh W ops st = true ->
-  index_covers W (fst (exec_crash W ops k st)) = true.
-Proof.
-  intros W ops k st HW Hc Hk Hs Hi Hm He Hf.
-  exact (crash_index_covers W ops k st HW (conj (conj Hc (conj Hk Hs)) (conj Hi Hm)) He Hf).
-Qed.
-Print Assumptions C05_index_fresh.
-
 (* the whole property from the empty database: every crash image of every environment-respecting
-   history is consistent and continuous, a fresh process is ready and stores the next block, and — for
-   histories that respect the snapshot discipline, no semantic hypothesis — its event index has no false
-   negatives *)
+   history is consistent and continuous, a fresh process is ready and stores the next block, and its
+   event index has no false negatives — no hypothesis about snapshots *)
 Theorem C05_from_empty : forall W ops k, 0 < W -> ops_env W ops (disk0, rf0) = true ->
   let d := fst (exec_crash W ops k (disk0, rf0)) in
-  consistent W d = true /\ cont d = true /\ recover_ready W d = true /\
-  (snap_discipline ops false = true -> index_covers W d = true).
+  consistent W d = true /\ cont d = true /\ recover_ready W d = true /\ index_covers W d = true.
 Proof.
   intros W ops k HW He d.
   destruct (crash_consistent W ops k (disk0, rf0) HW (proj1 (good_init W HW)) He) as [C K].
   repeat split; auto.
   - apply (recover_next_store W d rf0 HW C K).
-  - intros Hd. exact (crash_index_covers_discipline W ops k (disk0, rf0) HW (good_init W HW) He Hd).
+  - exact (crash_index_covers W ops k (disk0, rf0) HW (good_init W HW) He).
 Qed.
 Print Assumptions C05_from_empty.
 
@@ -212,10 +198,11 @@ Example C05_crash_sync_needed :
   consistent 4 (fst (exec_crash 4 [Revert] 1 (d, m))) = false.
 Proof. vm_compute. repeat split; reflexivity. Qed.
 
-(* THE CODE BEFORE THE REPAIR (plan_before_fix: the initialisation did not delete the snapshot it read):
-   graceful restart at height 2, revert, store a different block 2, crash: all index families are
-   consistent, but the filter a fresh process used was the stale snapshot and missed the new block's keys
-   (event false negatives). This was C05_crash_index_refuted (registered finding crash:stale-filter-snapshot). *)
+(* THE CODE BEFORE BOTH REPAIRS (plan_before_fix: the initialisation did not delete the snapshot it read, the
+   revert did not delete it either): graceful restart at height 2, revert, store a different block 2, crash:
+   all index families are consistent, but the filter a fresh process used was the stale snapshot and missed
+   the new block's keys (event false negatives). This was C05_crash_index_refuted (registered finding
+   crash:stale-filter-snapshot, shutdown-snapshot form; fixed by /repo 1231538). *)
 Example C05_crash_index_refuted_before_fix :
   let ops := firstn 3 chain5 ++ [Restart true; Revert; Store (blk 2 202 101 [7])] in
   let d := crash_disk_before_fix 4 ops 6 st0 in
@@ -223,13 +210,13 @@ Example C05_crash_index_refuted_before_fix :
   consistent 4 d = true /\ cont d = true /\ recover_ready 4 d = true /\ index_covers_before_fix 4 d = false.
 Proof. vm_compute. repeat split; try reflexivity. discriminate. Qed.
 
-(* ... the same history on the repaired code: the restart's first use of the filter consumes the snapshot
-   (one more commit: [1;1;1;2;1;1]); the history respects the snapshot discipline, every crash image is
-   consistent, ready and has no event false negatives; the only image that holds a snapshot is the one
-   between the shutdown's snapshot write and its consumption *)
+(* ... the same history on today's code: the restart's first use of the filter consumes the snapshot
+   (one more commit: [1;1;1;2;1;1]); every crash image is consistent, ready and has no event false
+   negatives; the only image that holds a snapshot is the one between the shutdown's snapshot write and
+   its consumption *)
 Example C05_crash_index_repaired :
   let ops := firstn 3 chain5 ++ [Restart true; Revert; Store (blk 2 202 101 [7])] in
-  ops_env 4 ops st0 = true /\ snap_discipline ops false = true /\ ops_fresh 4 ops st0 = true /\
+  ops_env 4 ops st0 = true /\
   batch_counts 4 ops st0 = [1; 1; 1; 2; 1; 1]%nat /\
   forallb (fun k => let d := fst (exec_crash 4 ops k st0) in
                     consistent 4 d && cont d && recover_ready 4 d && index_covers 4 d &&
@@ -237,36 +224,76 @@ Example C05_crash_index_repaired :
           (seq 0 8) = true.
 Proof. vm_compute. repeat split; reflexivity. Qed.
 
-(* WHAT SURVIVES THE REPAIR: a snapshot written in the middle of a process's life (the exported
-   Blockchain.WriteRunningEventFilter called before shutdown) is still never invalidated by that process:
-   snapshot at height 2, revert, store a different block 2, crash: the fresh process accepts the snapshot
-   (next = head + 1) and misses the new block's keys. The snapshot discipline is violated (and so is
-   ops_fresh): the hypothesis of C05_index is not decorative. The damage is now transient: that restart
-   consumes the snapshot, the next one rebuilds from headers. *)
-Example C05_crash_index_midlife_snapshot_refuted :
+(* THE FIXED FINDING (crash:stale-filter-snapshot:event-false-negatives, mid-life form). The code BEFORE the
+   revert repair (plan_revert_before_fix: today's code with the old revert batch, which leaves the snapshot
+   alone): a snapshot written in the middle of a process's life (the exported
+   Blockchain.WriteRunningEventFilter) at height 2, revert, store a different block 2, crash: the stale
+   snapshot is on disk, the fresh process accepts it (next = head + 1) and misses the new block's keys:
+   index_covers = false for an environment-respecting history — the statement of C05_index is FALSE for
+   that code. (It was C05_crash_index_midlife_snapshot_refuted, the witness that the former hypothesis
+   snap_discipline was not decorative.) *)
+Example C05_stale_snapshot_before_fix_refuted :
   let ops := firstn 3 chain5 ++ [Snapshot; Revert; Store (blk 2 202 101 [7])] in
-  let d := fst (exec_crash 4 ops 6 st0) in
-  ops_env 4 ops st0 = true /\ snap_discipline ops false = false /\ ops_fresh 4 ops st0 = false /\
-  consistent 4 d = true /\ cont d = true /\ recover_ready 4 d = true /\ index_covers 4 d = false /\
+  let d := crash_disk_revert_before_fix 4 ops 6 st0 in
+  ops_env 4 ops st0 = true /\ d_snap d <> None /\
+  consistent 4 d = true /\ cont d = true /\ recover_ready 4 d = true /\ index_covers 4 d = false.
+Proof. vm_compute. repeat split; try reflexivity. discriminate. Qed.
+
+(* ... the same history on the repaired code: same batch counts (the delete travels in the revert's batch),
+   the snapshot exists only in the image between its write and the revert, every crash image is consistent,
+   ready and has no event false negatives; so does the process that restarts afterwards *)
+Example C05_stale_snapshot_repaired :
+  let ops := firstn 3 chain5 ++ [Snapshot; Revert; Store (blk 2 202 101 [7])] in
+  ops_env 4 ops st0 = true /\ batch_counts 4 ops st0 = [1; 1; 1; 1; 1; 1]%nat /\
+  forallb (fun k => let d := fst (exec_crash 4 ops k st0) in
+                    consistent 4 d && cont d && recover_ready 4 d && index_covers 4 d &&
+                    Bool.eqb (match d_snap d with Some _ => true | None => false end) (Nat.eqb k 4))
+          (seq 0 8) = true /\
   let r := run 4 (ops ++ [Restart false]) st0 in
-  d_snap (fst r) = None /\ mem_covers 4 (fst r) (snd r) = false /\ index_covers 4 (fst r) = true.
+  d_snap (fst r) = None /\ mem_covers 4 (fst r) (snd r) = true /\ index_covers 4 (fst r) = true.
 Proof. vm_compute. repeat split; reflexivity. Qed.
 
-(* ... and NOT transient when the fill from the stale mid-life snapshot reaches a window end: snapshot at
-   height 1, revert, blocks 1', 2, 3 (3 ends the window: the running process persists the correct window),
-   crash: the fresh process consumes the snapshot, fills 2..3 into its stale columns, rolls over and Puts
-   the window again — with block 1's OLD keys. The persisted window is wrong for good: the false
-   negatives survive every further restart, graceful or not. *)
-Example C05_crash_index_midlife_permanent_refuted :
+(* ... before the revert repair the damage was even PERMANENT when the fill from the stale mid-life snapshot
+   reached a window end: snapshot at height 1, revert, blocks 1', 2, 3 (3 ends the window: the running
+   process persists the correct window), crash: the fresh process consumes the snapshot, fills 2..3 into its
+   stale columns, rolls over and Puts the window again — with block 1's OLD keys; the false negatives
+   survived every further restart. On the repaired code the same history is clean at every crash point and
+   the persisted window keeps block 1' 's key 7. *)
+Example C05_stale_snapshot_permanent_before_fix_refuted :
   let ops := [Store (blk 0 100 0 [1]); Store (blk 1 101 100 [2]); Snapshot; Revert; Store (blk 1 201 100 [7]);
               Store (blk 2 202 201 [1]); Store (blk 3 203 202 [3])] in
-  let d := fst (exec_crash 4 ops 7 st0) in
-  ops_env 4 ops st0 = true /\ snap_discipline ops false = false /\
+  let d := crash_disk_revert_before_fix 4 ops 7 st0 in
+  ops_env 4 ops st0 = true /\
   consistent 4 d = true /\ get_window d 0 = Some [(3, [3]); (2, [1]); (1, [7]); (0, [1])] /\ index_covers 4 d = false /\
-  let r := run 4 (ops ++ [Restart false; Restart false; Restart true]) st0 in
-  d_snap (fst r) = None /\ get_window (fst r) 0 = Some [(3, [3]); (2, [1]); (1, [2]); (0, [1])] /\
-  consistent 4 (fst r) = true /\ mem_covers 4 (fst r) (snd r) = false /\ index_covers 4 (fst r) = false.
+  (let r := fold_left (step_revert_before_fix 4) (ops ++ [Restart false; Restart false; Restart true]) st0 in
+   d_snap (fst r) = None /\ get_window (fst r) 0 = Some [(3, [3]); (2, [1]); (1, [2]); (0, [1])] /\
+   consistent 4 (fst r) = true /\ mem_covers 4 (fst r) (snd r) = false /\ index_covers 4 (fst r) = false) /\
+  forallb (fun k => let d := fst (exec_crash 4 ops k st0) in consistent 4 d && cont d && recover_ready 4 d && index_covers 4 d)
+          (seq 0 9) = true /\
+  (let r := run 4 (ops ++ [Restart false; Restart false; Restart true]) st0 in
+   get_window (fst r) 0 = Some [(3, [3]); (2, [1]); (1, [7]); (0, [1])] /\ mem_covers 4 (fst r) (snd r) = true /\
+   index_covers 4 (fst r) = true).
 Proof. vm_compute. repeat split; reflexivity. Qed.
+
+(* THE START HYPOTHESIS mem_sync OF C05_index IS NEEDED — this is the registered finding the revert repair
+   does NOT touch (failed-store:uncommitted-filter-state-persisted-by-snapshot). Start state = what the
+   failed commit of Store 2 leaves behind (disk at height 1, the in-memory filter already holds block 2's
+   column, next = 3): it satisfies every start hypothesis of C05_index (consistent, cont, IdxD, MemCover)
+   except mem_sync; the environment-respecting history [Snapshot; Store 2'] (no revert at all) crashed after
+   both commits leaves a snapshot that a fresh process accepts as-is (next = 3 = head + 1) and that misses
+   block 2' 's key 7. *)
+Example C05_index_sync_needed :
+  let st := wit_st in   (* Proofs_H: wit_st := exec_fault 4 [Store 0; Store 1; Store 2] 2 (disk0, rf0) *)
+  let ops := [Snapshot; Store (blk 2 202 101 [7])] in
+  st = exec_fault 4 (firstn 3 chain5) 2 st0 /\
+  consistent 4 (fst st) = true /\ cont (fst st) = true /\ mem_sync 4 (fst st) (snd st) = false /\
+  (IdxD 4 (fst st) /\ MemCover (fst st) (snd st)) /\
+  ops_env 4 ops st = true /\ index_covers 4 (fst (exec_crash 4 ops 2 st)) = false.
+Proof.
+  cbv zeta.
+  split; [vm_compute; reflexivity|]. split; [vm_compute; reflexivity|]. split; [vm_compute; reflexivity|].
+  split; [vm_compute; reflexivity|]. split; [exact wit_st_idx|]. split; vm_compute; reflexivity.
+Qed.
 
 (* the uncommitted-column variant (fault half): the commit of Store 2 fails (its column stays in the
    in-memory filter), a mid-life snapshot persists that column, a different block 2 is stored, ungraceful
@@ -318,19 +345,24 @@ Example C05_crash_nonvacuous :
                     consistent 4 d && cont d && recover_ready 4 d && index_covers 4 d) (seq 0 45) = true.
 Proof. vm_compute. split; reflexivity. Qed.
 
-(* the hypotheses of C05_index (snapshot discipline) are satisfiable by non-trivial histories: [history]
-   itself (a mid-life snapshot followed by prunes and a restart, a graceful restart followed by reverts) and
-   [history_fresh] (reverts across a window end, snapshot, prunes, restarts with snapshot deletes and a
-   roll-over write during initialisation, stores) *)
+(* the hypotheses of C05_index are satisfiable by non-trivial histories: [history_fresh] (reverts across a
+   window end, snapshot, prunes, restarts with snapshot deletes and a roll-over write during initialisation,
+   stores) and [history_midlife] (mid-life snapshots followed by reverts — inside a window and across a
+   window end —, different blocks, restarts): every crash point has index_covers *)
 Definition history_fresh : list op :=
   chain14 ++ [Revert; Revert; Revert; Store (blk 11 211 110 [5]); Snapshot; SetL1 7; Prune false 3; Restart false;
               Prune true 6; Store (blk 12 212 211 [6]); Restart true; Store (blk 13 213 212 [7]); Restart false;
               Store (blk 14 214 213 [8])].
+Definition history_midlife : list op :=
+  chain14 ++ [Snapshot; Revert; Store (blk 13 313 112 [40]); Restart false; Snapshot; Revert; Revert;
+              Store (blk 12 312 111 [41]); Snapshot; Revert; Revert; Store (blk 11 311 110 [42]);
+              Store (blk 12 412 311 [43]); Restart false; Store (blk 13 413 412 [44])].
 
 Example C05_index_nonvacuous :
-  ops_env 4 history_fresh st0 = true /\ snap_discipline history_fresh false = true /\
-  ops_fresh 4 history_fresh st0 = true /\
+  ops_env 4 history_fresh st0 = true /\
   batch_counts 4 history_fresh st0 =
     [1; 1; 1; 1; 1; 1; 1; 1; 1; 1; 1; 1; 1; 1; 1; 1; 1; 1; 1; 1; 5; 1; 5; 1; 2; 1; 0; 1]%nat /\
-  snap_discipline history false = true.
+  ops_env 4 history_midlife st0 = true /\ snap_discipline history_midlife false = false /\
+  forallb (fun k => let d := fst (exec_crash 4 history_midlife k st0) in
+                    consistent 4 d && cont d && recover_ready 4 d && index_covers 4 d) (seq 0 32) = true.
 Proof. vm_compute. repeat split; reflexivity. Qed.
